@@ -3,6 +3,8 @@ mod gen;
 mod props;
 mod report;
 mod spec;
+mod textgen;
+mod typed;
 
 use report::Tier;
 
